@@ -32,6 +32,7 @@ type WaitCase struct {
 	Route   string `json:"route,omitempty"`    // func / batch kinds: "" all builder methods; "opt-wait" wait through the constructor option, budget through the builder; "opt-all" both through options
 	CtxFar  bool   `json:"ctx_far,omitempty"` // the context also carries a deadline two hours away (explicit cancellation must still interrupt the wait)
 	DeadlineMs int `json:"deadline_ms,omitempty"` // > 0 (with Cancel = 1): nobody calls cancel — the context's own deadline, this many ms away, expires while the item sits in its hour-long wait
+	CtxNearMs int `json:"ctx_near_ms,omitempty"` // with Cancel: the context also carries a deadline this many ms away — BEFORE the end of the hour-long wait, but long after the explicit cancel(): the error is still the context's (Canceled)
 	ErrKind string `json:"err_kind,omitempty"` // "ctx-timeout" / "ctx-canceled": failing attempts return an error that wraps context.DeadlineExceeded / context.Canceled although the run's context is alive (a per-attempt timeout)
 	PreWaitNs int64 `json:"pre_wait_ns,omitempty"` // > 0: the node is first built with THIS wait and run once; then the wait is re-configured (builder method) to WaitNs and the measured run follows
 }
@@ -40,6 +41,16 @@ type waitNode struct {
 	*flyt.BaseNode
 	w *waitRun
 }
+
+// waitNodeOverride embeds a BaseNode that carries NO wait and a budget of 1 and brings its own getters.
+type waitNodeOverride struct {
+	waitNode
+	n    int
+	wait time.Duration
+}
+
+func (n *waitNodeOverride) GetMaxRetries() int     { return n.n }
+func (n *waitNodeOverride) GetWait() time.Duration { return n.wait }
 
 type waitNodeFB struct{ waitNode }
 
@@ -144,6 +155,9 @@ func runWaitCase(cs *WaitCase) (*waitObs, []finding) {
 		if cs.CtxFar {
 			c, cf = context.WithTimeout(ctx, 2*time.Hour)
 		}
+		if cs.CtxNearMs > 0 {
+			c, cf = context.WithTimeout(ctx, time.Duration(cs.CtxNearMs)*time.Millisecond)
+		}
 		if cs.CtxCause {
 			cc, ccf := context.WithCancelCause(ctx)
 			c, cf = cc, func() { ccf(errors.New("custom cancellation cause")) }
@@ -164,6 +178,8 @@ func runWaitCase(cs *WaitCase) (*waitObs, []finding) {
 		} else {
 			node = &wn
 		}
+	case "struct-override":
+		node = &waitNodeOverride{waitNode{flyt.NewBaseNode(), w}, cs.N, wait}
 	case "func":
 		nb := flyt.NewNode().WithMaxRetries(cs.N).WithWait(wait)
 		switch cs.Route {
@@ -395,6 +411,13 @@ func runC20(c *Cfg) {
 			}
 		}
 	}
+	for _, w := range waits[:3] { // nodes that bring their own GetWait / GetMaxRetries (the embedded BaseNode says: no wait, one attempt)
+		for n := 2; n <= 3; n++ {
+			cases = append(cases, &WaitCase{Family: "lower-bound", Kind: "struct-override", WaitNs: int64(w), N: n, K: n + 1})
+			cases = append(cases, &WaitCase{Family: "lower-bound", Kind: "struct-override", WaitNs: int64(w), N: n, K: n})
+		}
+	}
+	cases = append(cases, &WaitCase{Family: "interrupt", Kind: "struct-override", WaitNs: int64(time.Hour), N: 3, K: 4, Cancel: 1, InCB: false})
 	for _, cc := range []int{0, 2, 4} {
 		for _, w := range waits[:3] {
 			for n := 2; n <= 3; n++ {
@@ -447,6 +470,7 @@ func runC20(c *Cfg) {
 					cases = append(cases, &WaitCase{Family: "interrupt", Kind: kind, WaitNs: int64(time.Hour), N: n, K: n + 1, Cancel: 1, InCB: in, C: cc, Items: 3, FB: true, CtxFar: n%2 == 0})
 					cases = append(cases, &WaitCase{Family: "interrupt", Kind: kind, WaitNs: int64(time.Hour), N: n, K: n + 1, Cancel: 1, InCB: in, C: cc, Items: 3, CtxFar: true})
 					cases = append(cases, &WaitCase{Family: "interrupt", Kind: kind, WaitNs: int64(time.Hour), N: n, K: n + 1, Cancel: 1, InCB: in, C: cc, Items: 3, CtxCause: true})
+					cases = append(cases, &WaitCase{Family: "interrupt-deadline-inside-the-wait", Kind: kind, WaitNs: int64(time.Hour), N: n, K: n + 1, Cancel: 1, InCB: in, C: cc, Items: 3, CtxNearMs: 20000, Stop: cc == 2})
 					if kind == "batch" {
 						cases = append(cases, &WaitCase{Family: "interrupt-stop-mode", Kind: kind, WaitNs: int64(time.Hour), N: n, K: n + 1, Cancel: 1, InCB: in, C: cc, Items: 3, Stop: true})
 						cases = append(cases, &WaitCase{Family: "interrupt-stop-mode", Kind: kind, WaitNs: int64(time.Hour), N: n, K: n + 1, Cancel: 1, DeadlineMs: 100, InCB: true, C: cc, Items: 2, Stop: true})
